@@ -271,4 +271,8 @@ pub fn possible_intersection<F>(""")]),
     M('cycle-first-L-to-last-R', ['C02', 'C04'], [(CE, "                map[l_from] = r_from;", "                map[l_from] = r_upto_exclusive - 1;")], {'C02': 'T-vertex-cycle'}),
     M('cycle-R-scan-ignores-kind', ['C02'], [(CE, "        while i < data.len() && is_identical(x_ref, &data[i]) && !is_left(&data[i]) {", "        while i < data.len() && is_identical(x_ref, &data[i]) && !is_left(x_ref) {")], {'C02': 'T-vertex-cycle'}),
     B('cycle-bind-last-indices', ['C02', 'C04'], [(CE, "            if has_l_events {\n                map[r_upto] = l_upto_exclusive - 1;\n            } else {\n                map[r_upto] = r_from;\n            }", "            map[r_upto] = if has_l_events { l_upto_exclusive - 1 } else { r_from };")]),
+    # ---- walk exits (T-walk exit clause)
+    M('walk-exit-exterior-only', ['C04', 'C02'], [(CE, "            if result_events[pos as usize].point == initial {\n                break;\n            }\n        }", "            if contour.is_exterior() && result_events[pos as usize].point == initial {\n                break;\n            }\n        }")], {'C04': 'T-walk'}),
+    M('walk-exit-never-early', ['C04'], [(CE, "            if result_events[pos as usize].point == initial {\n                break;\n            }\n        }", "            if result_events[pos as usize].point == initial && false {\n                break;\n            }\n        }")], {'C04': 'T-walk'}),
+    B('walk-exit-ne-form', ['C04', 'C02'], [(CE, "            if result_events[pos as usize].point == initial {\n                break;\n            }\n        }", "            if result_events[pos as usize].point != initial {\n                continue;\n            }\n            break;\n        }")]),
 ]
